@@ -13,7 +13,7 @@ P2 creation records (constraints, variables, objectives, NL items);
 P3 lazily exported link entries are flushed before the file is closed.
 """
 import re, hashlib
-from ..cfg import Facts, kids, strip, walk, cv, render, call_args, call_object, switch_sections
+from ..cfg import norm_facts, xrender, expand_locals, reach_calls, Facts, kids, strip, walk, cv, render, call_args, call_object, switch_sections
 from ..cfg import short_loc as _short_loc
 from ..facts import export, export_many, AnalysisBroken
 
@@ -409,18 +409,50 @@ def run(rep, ctx):
                   "writer whose scope ends before the single newline, then appended", floor=10)
     emitters = [f for q in sorted(emit_qns) for f in all_of(q, need=False)]
     top_nodes = []       # (f, jw VarDecl, scope compound)
+
+    def finisher_param(g):
+        """index of the line-buffer parameter if g does nothing but terminate the record and append it:
+        { buf.write("\n"); logger->Append(buf); }"""
+        if g is None or g.body is None:
+            return None
+        st_ = [x for x in kids(g.body) if x is not None and x["k"] != "NullStmt"]
+        if len(st_) != 2:
+            return None
+        a_, b_ = strip(st_[0]), strip(st_[1])
+        if a_["k"] != "CXXMemberCallExpr" or not (a_.get("callee") or "").endswith("::write") or b_["k"] != "CXXMemberCallExpr" or b_.get("callee") not in APPENDS:
+            return None
+        obj = strip(call_object(a_))
+        lit = strip(call_args(a_)[0]) if len(call_args(a_)) == 1 else None
+        while lit is not None and lit["k"] == "CXXConstructExpr" and kids(lit):
+            lit = strip(kids(lit)[0])
+        arg = strip(call_args(b_)[0]) if call_args(b_) else None
+        if obj is None or arg is None or lit is None or lit["k"] != "StringLiteral" or lit.get("v") != "\n":
+            return None
+        for i_, p_ in enumerate(g.params):
+            if obj.get("declId") == p_["declId"] and arg.get("declId") == p_["declId"] and "MemoryWriter" in (p_.get("ct") or p_.get("t") or ""):
+                return i_
+        return None
+    fin_by_id = {}
+    for g_ in funcs:
+        ix_ = finisher_param(g_)
+        if ix_ is not None:
+            fin_by_id[g_.id] = ix_
     for f in emitters:
         key = sname(f)
         probs = []
+        if f.id in fin_by_id:
+            l1.ok("%s|%s" % (key, "finisher"), short_loc(f.loc), "helper that terminates a record with \"\\n\" and appends it; its callers are analysed")
+            continue
+        fin_calls = [c for c in f.walk() if c["k"] in ("CXXMemberCallExpr", "CallExpr") and c.get("calleeId") in fin_by_id]
         apps = [c for c in f.walk() if c["k"] == "CXXMemberCallExpr" and c.get("callee") in APPENDS]
         jws = [v for v in f.walk() if v["k"] == "VarDecl" and is_jw_type(v.get("ct") or v.get("t")) and kids(v)
                and strip(kids(v)[0])["k"] == "CXXConstructExpr" and len(kids(strip(kids(v)[0]))) == 1
                and not is_jw_type(strip(kids(strip(kids(v)[0]))[0]).get("ct"))]
-        if not apps:
+        if not apps and not fin_calls:
             probs.append("constructs a top-level writer but never appends its buffer to the file")
         bufs = set()
-        for A in apps:
-            a = strip(call_args(A)[0])
+        for A in apps + fin_calls:
+            a = strip(call_args(A)[fin_by_id[A["calleeId"]]] if A in fin_calls else call_args(A)[0])
             if a["k"] != "DeclRefExpr" or "MemoryWriter" not in (a.get("ct") or ""):
                 probs.append("Append argument `%s` is not a local line buffer" % render(a))
                 continue
@@ -447,6 +479,9 @@ def run(rep, ctx):
                     continue
                 if p1 is not None and p1["k"] == "CXXMemberCallExpr" and p1.get("callee") in APPENDS:
                     app_uses.append(p1)
+                    continue
+                if p1 is not None and p1["k"] in ("CXXMemberCallExpr", "CallExpr") and p1.get("calleeId") in fin_by_id:
+                    nl_stmts.append(p1)          # the finisher writes the newline and appends
                     continue
                 probs.append("line buffer used outside the writer at %s: %s" % (short_loc(u.get("l")), render(p1)[:60] if p1 else "?"))
             # pairing: each top-level writer's scope is immediately followed by a newline write
@@ -810,16 +845,15 @@ def run(rep, ctx):
              short_loc(dt.loc), "the destructor closes the node")
     for qn, kn, tok in ((JW + "::EnsureArray", "Array", "["), (JW + "::EnsureDictionary", "Dict", "{")):
         g = one(qn, lambda f: f.unit == U)
-        ifs = [n for n in g.walk() if n["k"] == "IfStmt"]
-        okk = False
-        if ifs:
-            c = strip(kids(ifs[0])[0])
-            okk = c["k"] == "BinaryOperator" and c.get("op") == "==" and {cv(kids(c)[0]), render(kids(c)[1])} & {kinds["Unset"]} \
-                and "kind_" in render(c)
-            then = kids(ifs[0])[1]
-            okk = okk and kind_assigns(g, [then]) == [kinds[kn]] and writes_in(g, [then]) == [tok]
-            rest = [w_ for w_ in writes_in(g, [g.body])]
-            okk = okk and rest == [tok]
+        # shape-free: the only kind_ assignment and the only write of the function happen exactly under kind_ == Unset
+        asg = [n for n in g.walk() if n["k"] == "BinaryOperator" and n.get("op") == "=" and render(kids(n)[0]).replace("this->", "") == "kind_"]
+        wr = [c for c in g.walk() if c["k"] == "CXXMemberCallExpr" and (c.get("callee") or "").endswith("::write")]
+
+        def under_unset(n):
+            fa = norm_facts(g, n, canon=True)
+            return any("==" in t and "Unset" in t and "kind_" in t and pol for t, pol in fa)
+        okk = len(asg) == 1 and cv(kids(asg[0])[1]) == kinds[kn] and under_unset(asg[0]) and \
+            writes_in(g, [g.body]) == [tok] and len(wr) == 1 and under_unset(wr[0])
         y1.check(okk, "%s|opens" % qn.split("::")[-1], short_loc(g.loc),
                  "an Unset node becomes %s and writes %r exactly once" % (kn, tok))
     sep = one(JW + "::InsertElementSeparator", lambda f: f.unit == U)
